@@ -372,6 +372,9 @@ func runC16(c *Ctx) {
 		c.Unknown("R16.8", pkgRRuntime+" :: tracker pool Put", token.NoPos, "anchor-unresolved: no call of "+putGlob)
 	}
 
+
+	// ---------- error discipline (E8)
+	errDisciplineFor(c, "C16")
 }
 
 // blockingOps: in the controller-runtime packages every blocking select has a context/done arm and there is no bare
